@@ -626,10 +626,14 @@ impl<'a> TokenLexer<'a> {
 
         match id {
             "else" => {
-                if self
-                    .source
-                    .get(self.current_byte..self.current_byte + char_bytes + 3)
-                    == Some("else if")
+                // `else if` is a single token, as long as the `if` isn't the start of a longer
+                // identifier (e.g. `else iffy`).
+                let else_if_end = self.current_byte + char_bytes + 3;
+                if self.source.get(self.current_byte..else_if_end) == Some("else if")
+                    && !self.source[else_if_end..]
+                        .chars()
+                        .next()
+                        .is_some_and(is_id_continue)
                 {
                     self.advance_line(7);
                     return ElseIf;
